@@ -8,7 +8,7 @@ from .containers import CaseInsensitiveDict
 from .deferred import Promise, wait, BaseDeferred, Deferred, SizedDeferred, DeferredCycle
 from .devices import open_device
 from .formats import file_formats
-from .metacommand_impl import get_as_int
+from .metacommand_impl import get_as_int, describe_int
 from . import operators
 from .types import Instruction, Label, Assignment, InstructionPointer, WordList, ParenthesizedExpression, CodeBlock
 from . import reports
@@ -112,7 +112,7 @@ class Compiler:
                                     if length < 0:
                                         reports.error(
                                             "value-out-of-bounds",
-                                            (insn.ctx_start, insn.ctx_end, f"The new link address is lower than the previous one: a negative skip from {old_addr_value} to {new_addr_value} was attempted")
+                                            (insn.ctx_start, insn.ctx_end, f"The new link address is lower than the previous one: a negative skip from {describe_int(old_addr_value)} to {describe_int(new_addr_value)} was attempted")
                                         )
                                         raise reports.RecoverableError("A negative value was passed when an unsigned value was expected")
                                     return b"\x00" * length
